@@ -11,6 +11,25 @@ PROFILE = {'pressure': 0.5, 'failure': 0.5, 'traits': 0.5, 'partitions': 0.5, 'a
 def gen_case(rng, i):
     case = ecell_gen.gen_history(rng, PROFILE, max_ops=rng.choice([15, 25, 35]))
     ops = case['ops']
+    twin = None
+    if rng.random() < 0.2:
+        # two instances of one shape that fit nowhere, each in a different dimension (incomparable failures): whatever the
+        # feasibility tracker remembers of them must not hold back a smaller instance of the same shape
+        adds0 = [op for op in ops if op[0] == 'AddApp' and op[3]['order'] > 0]
+        if adds0:
+            src = rng.choice(adds0)
+            big = 5 * 1024
+            dims = rng.sample(range(3), 2)
+            twin = dict(src[3])
+            for j, dim in enumerate(dims):
+                a = dict(src[3])
+                a['name'] = 880 + 2 * (i % 10) + j
+                a['prio'] = 90 + j
+                a['order'] = 90000 + 2 * i + j
+                a['demand'] = [big if k == dim else rng.choice([1, 2]) for k in range(3)]
+                a['group'] = None
+                ops.append(['AddApp', src[1], list(src[2]), a])
+            twin['_alloc'] = (src[1], tuple(src[2]))
     ops += [['Schedule'], ['Schedule'], ['Schedule']]
     # the probe: modelled on an existing instance (same affinity/limits so that trackers and counters matter) or fresh
     adds = [op for op in ops if op[0] == 'AddApp' and op[3]['order'] > 0]
@@ -24,6 +43,10 @@ def gen_case(rng, i):
              'aff': base['aff'], 'limits': base['limits'], 'traits': rng.choice([0, 0, base['traits'], 1, 2]),
              'lease': rng.choice([0, 0, base['lease']]), 'drt': None,
              'group': base['group'] if rng.random() < 0.5 else None, 'once': False, 'order': 100000 + i}
+    if twin is not None:
+        probe.update({'aff': twin['aff'], 'limits': twin['limits'], 'traits': twin['traits'], 'lease': twin['lease'],
+                      'demand': [rng.choice([4, 8, 16]) for _ in range(3)], 'prio': rng.randint(1, 10)})
+        label, path = twin['_alloc']
     ops.append(['AddApp', label, list(path), probe])
     ops.append(['Schedule'])
     case['probe'] = name
@@ -113,7 +136,26 @@ def extra_oracle(case, r):
     # was the probe skipped by the feasibility tracker? (recorded by wrapping PlacementFeasibilityTracker.feasible)
     sig = 'fitting-probe-left-pending'
     if probe in last.get('tracker_skipped', []):
-        sig = 'fitting-probe-skipped:feasibility-tracker-shape-collision'
+        # The tracker may only hold the probe back because an instance of the same shape (affinity name and limits,
+        # lease, allocation constraints) whose demand is <= the probe's in every dimension failed earlier in this
+        # cycle. The known finding is that "same shape" ignores the instance's own traits; a skip that no such
+        # smaller failure explains is a different defect.
+        pos = {}
+        for _lbl, q in last.get('queues', []):
+            for k, ent in enumerate(q):
+                pos[ent[0]] = (_lbl, k)
+        lims = sorted(ap['limits'].values())
+        explained = False
+        for f, fp in aft['apps'].items():
+            if f == probe or fp['server'] is not None or f not in pos or probe not in pos:
+                continue
+            if pos[f][0] != pos[probe][0] or pos[f][1] > pos[probe][1]:
+                continue
+            if (fp['aff'] == ap['aff'] and sorted(fp['limits'].values()) == lims and fp['lease'] == ap['lease']
+                    and fp['label'] == ap['label'] and all(x <= y for x, y in zip(fp['demand'], ap['demand']))):
+                explained = True
+        sig = ('fitting-probe-skipped:feasibility-tracker-shape-collision' if explained
+               else 'fitting-probe-skipped:no-smaller-failure-of-its-shape')
     return [(sig, 'at op %d: probe %d (demand %r, traits %d) stays pending although up server(s) %r fit it'
              % (i_last, probe, ap['demand'], ap['traits'], fit))]
 
